@@ -22,6 +22,8 @@ func checkC07(c *Ctx) {
 	c.Rule("C07.R4", "no in-place mutation of accepted bytes: no store through an element of a []byte parameter in package ingress (authenticators do not write the body)")
 	c.Rule("C07.R5", "the received header map is read-only in package ingress: no Header.Set/Add/Del or map update on the inbound request's Header, directly or through a holder it was stored into by reference (authenticators run before the envelope headers are copied)")
 
+	c.Rule("C07.R6", "the configured forward-auth copy_headers are the ones in force after a reload: an authenticator of the running state is installed again by a reload only behind a predicate that compares every field the builder sets from the configuration — the header list among them (the analysis of C18.R13, claimed here because a retained authenticator keeps storing the headers the old configuration listed)")
+	checkCarryOverCoversConfig(c, "C07.R6", reloadEntries(p))
 	// ---- R1 ----
 	serve := p.Func("ingress", "(*Server).ServeHTTP")
 	if serve == nil {
